@@ -377,6 +377,24 @@ def correspondence(rng, tier):
             {'op': 'uniform_partition', 'args': repr(args), 'nodes_on_bdry': repr(pf),
              'impl': str(out[1])[:60]})
 
+    # fixed corner cases: computed shape (integral / not integral / with nodes on the boundary / non-positive)
+    for cols, fl in [([[0.0], [1.0], [None], [0.25]], [(False, False)]),
+                     ([[0.0], [1.0], [None], [0.25]], [(True, True)]),
+                     ([[0.0], [1.0], [None], [0.375]], [(False, False)]),
+                     ([[0.0], [1.0], [None], [0.5]], [(True, False)]),
+                     ([[0.0], [1.75], [None], [0.5]], [(True, False)]),
+                     ([[0.0], [1.0], [None], [-0.25]], [(False, False)]),
+                     ([[0.0, 1.0], [1.0, 3.0], [None, None], [0.5, 0.5]], [(False, True), (True, True)]),
+                     ([[0.0], [0.0], [1], [None]], [(True, True)]),
+                     ([[0.0], [0.0], [2], [None]], [(False, False)]),
+                     ([[None], [1.0], [1], [2.0]], [(False, True)]),
+                     ([[0.0], [None], [1], [2.0]], [(True, False)])]:
+        args = [None if all(v is None for v in col) else list(col) for col in cols]
+        out = impl(lambda: uniform_partition(args[0], args[1], args[2], args[3], nodes_on_bdry=fl))
+        add('OUniform %s %s %s %s %s' % (C.lst(cols[0], C.oq), C.lst(cols[1], C.oq), ozs(cols[2]),
+                                        C.lst(cols[3], C.oq), flags_lit(fl)), out,
+            {'op': 'uniform_partition', 'args': repr(args), 'nodes_on_bdry': repr(fl), 'impl': str(out[1])[:60]})
+
     # ---- OFromGrid
     for _ in range(50 * N):
         nd = rng.choice([1, 2, 3])
@@ -689,6 +707,20 @@ ASSUMPTIONS = ['exact arithmetic: limits/coordinates are dyadic so that float re
                'rounding of the computed shape) are modelled as exact equality; inputs stay away from the tolerance band']
 TRUSTED = ['C14/Model.v hand-written model of RectPartition, RectGrid/IntervalProd checks, normalized_index_expression, '
            'Python slice and NumPy integer-array indexing semantics (validated by the correspondence)']
-LEVEL_TEXT = 'Proof (see notes/C14.md).'
-LEVEL_NOTE = ''
+LEVEL_TEXT = ('Proof: for a hand-written Coq model of RectPartition / RectGrid / IntervalProd / normalized_index_expression '
+              '(tied to the code by an in-Coq correspondence on ~1900 random operations per run), Coq proves for EVERY '
+              'number of grid points, every non-uniform vector and all limits: boundaries have n+1 entries, start/end at '
+              'the domain limits, increase strictly, node i lies in cell i, cell_sizes_vecs are the cell widths and sum to '
+              'the extent (n >= 2); index(x) returns the cell containing x with the documented tie rule and floating=True '
+              'the fractional position; p[index(x)] is that cell; every positive-step slice yields a valid partition whose '
+              'cells (unit step, ints) are exactly the selected cells, N-d axis by axis; insert/append/squeeze act on the '
+              'axis list; uniform partitions satisfy side*(n-(bl+br)/2)=extent with the requested node placement and '
+              'fractions 1/2|1 (n >= 2); every consistent subset of (min_pt, max_pt, shape, cell_sides) completes to the '
+              'same partition with that cell side. Five literal-text violations are proved as _refuted and listed as '
+              'findings (one-point axes: cell size 0.0 and nodes_on_bdry placement; stepped slices / index lists keep the '
+              'hull; integers below -n accepted; zero-extent axes have non-strict boundaries).')
+LEVEL_NOTE = ('Validated, not proved: the model itself (correspondence), byaxis, index lists, ellipsis/too-few-indices '
+              'normalisation, uniform_partition_fromgrid / nonuniform_partition defaults (probes + correspondence). '
+              'np.isclose/allclose decisions are modelled as exact equality; float rounding is out of scope. '
+              'Axioms: classical reals + funext as printed by Print Assumptions (insert/append/squeeze theorems are closed).')
 TECHNIQUE = 'Coq proofs by list induction over a hand-written model + in-Coq differential correspondence'
